@@ -25,7 +25,7 @@ import (
 
 func TestMain(m *testing.M) {
 	harness.Property("C12",
-		"case = one operation {ProcessInbound of a parsed message carrying the Mid header, GetInboundAnswer of a proposal, SetDeferred, SetSent with a file pre-placed where the joined path resolves} x one identifier from a hostile grammar (.., ../x, ../../x, a/../../b, absolute, out/../.., empty, 1..4 KiB, non-ASCII, NUL, backslashes, trailing dots/slashes, random mixtures of such segments; a fifth of them wrapped as RFC 2047 Q/B encoded-words or percent-encoded; benign alphanumerics as control) x header-name spelling x extra hostile header x send-only; run by the mboxop helper (chroot'ed into the scratch tree) in a fresh tree base/s/d1/d2/mbox with decoy files and sibling directories on every level. Oracle: recursive snapshot (path, type, mode, size, mtime, inode, SHA-256, link target) of everything except mbox/ is identical before and after. Non-trivial = identifier with a separator, a dot-dot segment, an absolute or the empty form, or an encoded form of a hostile identifier, or a handler that was pointed at the mailbox after serving a neighbouring one; distinct by hash(op, identifier, header spelling, extra header).",
+		"case = one operation {ProcessInbound of a parsed message carrying the Mid header, GetInboundAnswer of a proposal, SetDeferred, SetSent with a file pre-placed where the joined path resolves} x one identifier from a hostile grammar (.., ../x, ../../x, a/../../b, absolute, out/../.., empty, 1..4 KiB, non-ASCII, NUL, backslashes, trailing dots/slashes, random mixtures of such segments; a fifth of them wrapped as RFC 2047 Q/B encoded-words, percent-encoded, or written with characters that become separators when only their low byte is kept (U+012E, U+012F ...) or compatibility forms are folded (U+FF0E, U+FF0F); a twelfth of the ProcessInbound messages carry the identifier in padded field names ('Mid : harmless' followed by 'MID : hostile', no ordinary Mid field); benign alphanumerics as control) x header-name spelling x extra hostile header x send-only; run by the mboxop helper (chroot'ed into the scratch tree) in a fresh tree base/s/d1/d2/mbox with decoy files and sibling directories on every level. Oracle: recursive snapshot (path, type, mode, size, mtime, inode, SHA-256, link target) of everything except mbox/ is identical before and after. Non-trivial = identifier with a separator, a dot-dot segment, an absolute or the empty form, or an encoded form of a hostile identifier, or a handler that was pointed at the mailbox after serving a neighbouring one; distinct by hash(op, identifier, header spelling, extra header).",
 		"the helper's exit status and the operation's error value are not judged (SetSent ends the process when the rename fails)",
 		"identifiers reach ProcessInbound the way a remote's do: as the Mid field of message bytes parsed by fbb.Message.ReadFrom; bytes that do not parse are counted (helper:parse_err) and judged like any other case",
 	)
@@ -427,6 +427,23 @@ func encodeMID(raw []byte, kind string) []byte {
 		return []byte(b.String())
 	case "b":
 		return []byte("=?utf-8?b?" + base64.StdEncoding.EncodeToString(raw) + "?=")
+	case "rune-low-byte", "rune-low-byte-2", "fullwidth":
+		// characters that turn into '.', '/' or '\\' when a conversion keeps only their low byte (U+012E, U+012F,
+		// U+015C / U+022E ...) or folds compatibility forms (U+FF0E, U+FF0F, U+FF3C)
+		var b strings.Builder
+		for _, c := range raw {
+			switch {
+			case c != '/' && c != '.' && c != '\\':
+				b.WriteByte(c)
+			case kind == "rune-low-byte":
+				b.WriteRune(0x100 + rune(c))
+			case kind == "rune-low-byte-2":
+				b.WriteRune(0x200 + rune(c))
+			default:
+				b.WriteRune(0xFF00 + rune(c) - 0x20)
+			}
+		}
+		return []byte(b.String())
 	default:
 		var b strings.Builder
 		for _, c := range raw {
@@ -457,12 +474,18 @@ func genCase(t *rapid.T) Case {
 	// the same hostile identifiers in the encodings a "helpful" decoding step would undo before the name is
 	// used (the mailbox decodes RFC 2047 words in subjects and attachment names, URLs are percent-decoded)
 	if c.Family != "benign" && c.Family != "long" && rapid.IntRange(0, 4).Draw(t, "encoded") == 0 {
-		c.MID = encodeMID(c.MID, rapid.SampledFrom([]string{"q", "q-latin1", "b", "b", "pct"}).Draw(t, "encoding"))
+		c.MID = encodeMID(c.MID, rapid.SampledFrom([]string{"q", "q-latin1", "b", "b", "pct", "rune-low-byte", "rune-low-byte", "rune-low-byte-2", "fullwidth"}).Draw(t, "encoding"))
 		c.Family += "+encoded"
 	}
 	if c.Op == "process_inbound" {
 		c.MidKey = rapid.SampledFrom([]string{"Mid", "Mid", "Mid", "MID", "mid", "mId"}).Draw(t, "midkey")
 		c.Extra = rapid.SampledFrom([]string{"", "", "", "X-FilePath: ../../x.b2f", "X-FilePath: /s/x.b2f", "X-Unread: ../../x", "File: 0 ../../x", "X-P2POnly: true", "Mid: ../../x", "Subject: ../../x"}).Draw(t, "extra")
+	}
+	if c.Op == "process_inbound" && rapid.IntRange(0, 11).Draw(t, "padded_names") == 0 {
+		// field names with padding ("Mid : x"), which the MIME header reader keeps as written: the message has no
+		// ordinary Mid field but two padded ones, the first harmless, the second the hostile identifier
+		c.MidKey = rapid.SampledFrom([]string{"Mid ", "mid ", "Mid  "}).Draw(t, "padded_key") + ": GOODMID12345\r\n" + rapid.SampledFrom([]string{"MID ", "MId ", "mID  "}).Draw(t, "padded_key2")
+		c.Family += "+padded-field-names"
 	}
 	c.SendOnly = rapid.IntRange(0, 5).Draw(t, "sendonly") == 0
 	return c
